@@ -37,12 +37,24 @@ PROP = dict(
              "read off the tag text by the harness (texts with a bracket in the value part are left to scan-custom-args, whose reader now keeps blanks and tabs in "
              "the value); corpus: static types X21/X22 (separators and blank literals directly and one / two embedded levels down, with the flat twin) and a StructOf "
              "shape with the same units 0 / 1 / 2 / 4 levels down, once next to an extra processor; "
+             "seventh round (the MARKER FAMILY, n/10 further shapes drawn from fresh forks after all shapes above, plus corpus: Go-declared holder types X23-X27 and two StructOf shapes): "
+             "the tag-less route into the configuration is the field's TYPE implementing definition.ConfigurationProperties, i.e. Go's method-set rule asked of the field's static type by the harness "
+             "(reflect.Type.Implements): named fields of the Go-declared types ScanPMark / ScanPSet (Prefix() on the POINTER, prefix `grp`), ScanPNone (pointer receiver, a prefix the configuration "
+             "does not hold) and ScanMark (value receiver), by value and by pointer (nil or pre-set), exported or not, with no tag / foreign tags / a prefix tag / the custom tag / junk, 2-5 of them per shape "
+             "at random places the scanner walks (the component, embedded structs of any depth), the flattened form, the nesting and a re-nesting; the static types hold the same members also as ANONYMOUS "
+             "members (tagged embedded struct, embedded pointer, untagged embedded struct = descended); labels mark-ptrrecv-byvalue[-embedded] (by value, pointer receiver, no prefix tag: NO configuration point; "
+             "~75% / ~50% of these cases), mark-ptrrecv-byvalue-foreign-tag, mark-ptrrecv-pointer, mark-valrecv-byvalue, mark-valrecv-pointer, mark-prefix-tagged; oracles: scan-frame (sentinels) as before, and "
+             "scan-frame-start: the same units WITHOUT those the property calls untouched (unexported / untagged and no marker / unrecognised tags only) end Run with the same outcome; "
              "non-trivial = at least one embedded level and at least one recognised exported unit; distinct = distinct scenario lines",
-        trusted_base=COMMON_TB + ["reflect.StructOf builds types that reflect treats like compiled ones (checked against 4 compiled static types in the corpus)",
+        trusted_base=COMMON_TB + ["the `marker` input of the model (the field implements ConfigurationProperties, with its Prefix()) is read off the field's static type by the harness with reflect.Type.Implements — Go's method sets: "
+                                  "T for a by-value field, *T for a pointer field — not by the library's own type assertion",
+                                  "reflect.StructOf builds types that reflect treats like compiled ones (checked against 4 compiled static types in the corpus)",
                                   "the harness recovers field paths from the real Holder chain by address (zero-size embedded structs have no fields, so no ambiguity)"],
         assumptions=["the component is registered by pointer (addressable root), as the container requires",
                      "C11_flatten_props: ExtractHandlers look at the field's declaration/value, not at its holder chain (proved for the built-in ones)",
                      "a failed start (Run error) is compared by outcome only: where population stops depends on Go map order",
+                     "a pointer field whose type has a VALUE-receiver Prefix() is never nil when the container starts: the unchanged library asks the nil pointer for its prefix in a goroutine of its own and "
+                     "the Go method wrapper panics there (the process dies; observed, reported, outside C11: nothing is modified); the harness pre-sets such fields",
                      "a user tag processor filters the properties it is handed by Tag, as every processor of the library does (the container hands every processor all properties of the component)",
                      "C11_code_handed reads the regenerated ResolveAfterInstantiation with every processor of the chain InstantiationAware and answering true to PostProcessAfterInstantiation (a skipped processor is handed nothing); the value PostProcessProperties returns is arbitrary"],
     )
